@@ -51,6 +51,11 @@ def c02(tier, seed):
     # the two models on which the strategies are known to disagree (known findings H6, H10)
     for m in ["h6", "condition_userset"]:
         jobs.append(J(G, "VerifE01Check", model=m, maxcands=20, invalid=0, subjects="min", timeout_ms=60000, unwind=64, max_paths=6000))
+    # a recursive relation whose userset restriction exists with and without a condition (three objects per type, so
+    # that a conditional tuple sits below the first level): every strategy must evaluate the conditions at every depth.
+    # noerr=1: every condition evaluates (met / not met); without it the run also reports finding H26
+    jobs.append(J(G, "VerifE01Check", model="rec_cond", nobj=3, maxcands=12, invalid=0, subjects="min", noerr=1, timeout_ms=60000, unwind=64, max_paths=8000))
+    jobs.append(J(G, "VerifE01Check", model="rec_cond", nobj=3, maxcands=12, invalid=0, subjects="min", timeout_ms=60000, unwind=64, max_paths=8000))
     return jobs
 
 
@@ -66,6 +71,11 @@ def c03(tier, seed):
                       timeout_ms=60000, unwind=64, max_paths=3000 if q else 100000))
         if not q:
             jobs.append(J(V2, "VerifE03WeightedCheck", model=m, maxcands=12, seed=(seed + 1) % 7, timeout_ms=60000, unwind=64, max_paths=100000))
+    # a userset that aliases the subject's relation through a CHAIN of computed relations (the breaking-change detector
+    # has to follow the whole chain)
+    jobs.append(J(V2, "VerifE03WeightedCheck", model="alias_chain", maxcands=12, invalid=0, subjects="all", rel="viewer", timeout_ms=60000, unwind=64, max_paths=3000 if q else 100000))
+    if not q:
+        jobs.append(J(V2, "VerifE03WeightedCheck", model="alias_chain", maxcands=12, invalid=0, subjects="all", timeout_ms=60000, unwind=64, max_paths=100000))
     return jobs
 
 
@@ -79,6 +89,11 @@ def c20(tier, seed):
                           timeout_ms=60000, unwind=64, max_paths=6000 if q else 100000))
         # un-cancelled runs: every path must end with all engine goroutines terminated
         jobs.append(J(G, "VerifE01Check", model=m, maxcands=10, seed=(seed + 4) % 7, breadth=1, timeout_ms=60000, unwind=64, max_paths=6000 if q else 100000))
+    # ListUsers under a result limit: the collector stops early and cancels; every expansion goroutine still ends
+    # (a goroutine left blocked at the end of the harness is a violation by itself)
+    for m in (["userset"] if q else ["userset", "userset_flat", "ttu", "wildcard"]):
+        jobs.append(J("pkg/server/commands/listusers", "VerifE06ListUsers", model=m, maxcands=16, invalid=0, filters="all", maxres=1, nobj=3,
+                      known_objects_under_userset_filter=0, timeout_ms=60000, unwind=64, max_paths=8000 if q else 60000))
     return jobs
 
 
